@@ -46,6 +46,16 @@ def quiet():
     import numpy as np
 
     np.seterr(all="ignore")
+    # tqdm guards its instance registry with a multiprocessing lock that forked workers would share (every tqdm(...) in the
+    # library - SSI_mpe, SSI_poles, build_hank - then serialises the 16 workers); a per-process thread lock is all we need
+    try:
+        import threading
+
+        import tqdm
+
+        tqdm.tqdm.set_lock(threading.RLock())
+    except Exception:
+        pass
     got = os.path.dirname(os.path.dirname(os.path.abspath(pyoma2.__file__)))
     want = os.path.join(REPO, "src")
     if os.path.realpath(got) != os.path.realpath(want):
